@@ -166,13 +166,19 @@ theorem linvS_setOutputsStore (s s' : St) (hs : LInvS s) (parent output : Nat) (
     have i1 := linvS_wireUp s s1 hs output ws tys h1
     split at h
     · cases h
-    · split at h
+    · rename_i pop hpop
+      split at h
       · cases h
       · split at h
         · cases h
         · split at h
           · cases h
-          · exact linvS_setOp s1 s' i1 parent _ h
+          · rename_i pop' hso
+            refine linvS_setOp s1 s' i1 parent _ ?_ h
+            intro op0 h0
+            rw [hpop] at h0; injection h0 with h0; subst h0
+            obtain ⟨q1, q2⟩ := setOutTypes_static _ _ _ _ hso
+            rw [q1, q2]
 
 theorem binv_setOutputsBase (st st' : BuildState) (hb : BInv st) (bi : Nat) (ws : List Wire)
     (h : setOutputsBase st bi ws = .ok st') : BInv st' := by
@@ -266,10 +272,12 @@ theorem binv_condUpdateOutputs (st st' : BuildState) (hb : BInv st) (ci : Nat) (
     · rename_i s hs
       split at h
       · cases h
-      · split at h
+      · rename_i sm oi hcop
+        split at h
         · cases h
         · rename_i s1 h1
-          have i1 := linvS_setOp s s1 (hb.stores c.hid s hs) _ _ h1
+          have i1 := linvS_setOp s s1 (hb.stores c.hid s hs) _ _ (fun op0 h0 => by
+            rw [hcop] at h0; injection h0 with h0; subst h0; rfl) h1
           split at h
           · cases h
           · rename_i s2 h2
@@ -337,13 +345,19 @@ theorem binv_declareOutputs (st st' : BuildState) (hb : BInv st) (bi : Nat) (out
       · rename_i s hs
         split at h
         · cases h
-        · split at h
+        · rename_i pop hpop
+          split at h
           · cases h
-          · split at h
+          · rename_i pop' hot
+            split at h
             · cases h
             · rename_i s1 hso
               injection h with h; subst h
-              exact binv_setHugr st1 r.hid s1 b1 (linvS_setOp s s1 (b1.stores r.hid s hs) _ _ hso)
+              refine binv_setHugr st1 r.hid s1 b1 (linvS_setOp s s1 (b1.stores r.hid s hs) _ _ ?_ hso)
+              intro op0 h0
+              rw [hpop] at h0; injection h0 with h0; subst h0
+              obtain ⟨q1, q2⟩ := setOutTypes_static _ _ _ _ hot
+              rw [q1, q2]
 
 theorem linvS_newNestedStore (s s' : St) (hs : LInvS s) (op : Op) (parent : Nat) (p i o : Build.Handle)
     (h : newNestedStore s op parent = .ok (s', p, i, o)) : LInvS s' := by
@@ -560,7 +574,7 @@ theorem linvS_addOrderLink (s s' : St) (hs : LInvS s) (a b : Nat) (h : Store.add
   obtain ⟨b1, b2, b3, b4, _⟩ := addOrderLink_loc s s' hs.links a b h
   refine ⟨b1, addOrderLink_free s s' hs.free a b h, ?_⟩
   refine locInv_step (hframe_of_grow b2 b4) hs.loc ?_
-  intro l hm hn hv
+  intro l hm hn hv _
   rcases b3 l hm with h' | h'
   · exact absurd h' hn
   · subst h'; simp at hv
@@ -748,13 +762,239 @@ theorem binv_defineFunction (st st' : BuildState) (hb : BInv st) (bi : Nat) (nam
             rw [← (Prod.mk.inj h).1]
             exact binv_declareOutputs st1 st2 b1 fb1 _ hd
 
+
+/-! ### static edges: `call`, `load`, `load_function` -/
+
+theorem addNode_nodeOp (s s' : St) (hf : FreeInv s) (op : Op) (parent : Option Nat) (k : Option Nat) (md : Serial.Meta)
+    (n : Nat) (h : Store.addNode s op parent k md = .ok (s', n)) : nodeOp s' n = .ok op := by
+  unfold Store.addNode at h
+  obtain ⟨_, ⟨d, hd, hop, _⟩, _⟩ := Store.addNodeRaw_spec s s' hf op _ k md n h
+  unfold nodeOp; simp [hd, hop]
+
+theorem functionPortOffset_static (op : Op) (k : Nat) (h : Op.functionPortOffset op = .ok k) : staticIn op = some k := by
+  unfold Op.functionPortOffset at h
+  split at h
+  · injection h with h; subst h; rfl
+  · cases h
+
+theorem mkCall_static (sig : Poly) (inst : Option Sig) (targs : Option (List TypeArg)) (op : Op)
+    (h : Op.mkCall sig inst targs = .ok op) : ∃ p i a, op = .call p i a := by
+  unfold Op.mkCall at h
+  simp only [bind, Except.bind, pure, Except.pure] at h
+  split at h
+  · cases h
+  · injection h with h; exact ⟨_, _, _, h.symm⟩
+
+theorem mkLoadFunc_static (sig : Poly) (inst : Option Sig) (targs : Option (List TypeArg)) (op : Op)
+    (h : Op.mkLoadFunc sig inst targs = .ok op) : staticIn op = some 0 := by
+  unfold Op.mkLoadFunc at h
+  simp only [bind, Except.bind, pure, Except.pure] at h
+  split at h
+  · cases h
+  · injection h with h; subst h; rfl
+
+theorem binv_call (st st' : BuildState) (hb : BInv st) (bi func : Nat) (ws : List Wire) (inst : Option Sig)
+    (targs : Option (List TypeArg)) (hd : Build.Handle) (h : Build.call st bi func ws inst targs = .ok (st', hd)) :
+    BInv st' := by
+  unfold Build.call at h
+  split at h
+  · cases h
+  · rename_i r hr
+    split at h
+    · cases h
+    · rename_i s hs
+      split at h
+      · cases h
+      · split at h
+        · cases h
+        · rename_i cop hcop
+          split at h
+          · rename_i k fpo hk hf
+            have i0 := hb.stores r.hid s hs
+            unfold liftS at h
+            cases ha : Store.addNode s cop (some r.parent.1) (some k) [] with
+            | error e => simp [ha] at h
+            | ok ra =>
+              obtain ⟨s1, n⟩ := ra
+              simp only [ha] at h
+              have i1 := linvS_addNode s s1 i0 _ _ _ _ n ha
+              have hn := addNode_nodeOp s s1 i0.free _ _ _ _ n ha
+              cases hl : Store.addLink s1 (func, 0) (n, (fpo : Int)) with
+              | error e => simp [hl] at h
+              | ok s2 =>
+                simp only [hl] at h
+                have i2 := linvS_addStaticLink s1 s2 i1 (func, 0) n fpo ⟨cop, hn, functionPortOffset_static cop fpo hf⟩ hl
+                split at h
+                · cases h
+                · rename_i s3 tys hw
+                  injection h with h
+                  rw [← (Prod.mk.inj h).1]
+                  rw [ctx_of_dfg r (hb.kinds bi r hr)] at hw
+                  exact binv_setHugr st r.hid s3 hb (linvS_wireUp s2 s3 i2 n ws tys hw)
+          · cases h
+          · cases h
+
+theorem addOp_static (st st' : BuildState) (hb : BInv st) (bi : Nat) (op : Op) (ws : List Wire) (md : Serial.Meta)
+    (hd : Build.Handle) (h : addOp st bi op ws md = .ok (st', hd)) :
+    ∃ r s' op', st.getB bi = .ok r ∧ st'.getHugr r.hid = .ok s' ∧ nodeOp s' hd.1 = .ok op' ∧
+      staticIn op' = staticIn op := by
+  unfold addOp at h
+  split at h
+  · cases h
+  · rename_i r hr
+    split at h
+    · cases h
+    · rename_i s hs
+      split at h
+      · cases h
+      · rename_i s1 n h1
+        split at h
+        · cases h
+        · rename_i s2 tys h2
+          split at h
+          · cases h
+          · split at h
+            · cases h
+            · injection h with h
+              have e1 := (Prod.mk.inj h).1
+              have e2 := (Prod.mk.inj h).2
+              subst e1; subst e2
+              have i0 := hb.stores r.hid s hs
+              unfold liftS at h1
+              cases ha : Store.addNode s op (some r.parent.1) none md with
+              | error e => simp [ha] at h1
+              | ok ra =>
+                obtain ⟨sa, na⟩ := ra
+                simp only [ha] at h1
+                injection h1 with h1
+                have e1 := (Prod.mk.inj h1).1
+                have e2 := (Prod.mk.inj h1).2
+                subst e1; subst e2
+                have i1 := linvS_addNode s sa i0 _ _ _ _ na ha
+                have hn := addNode_nodeOp s sa i0.free _ _ _ _ na ha
+                rw [ctx_of_dfg r (hb.kinds bi r hr)] at h2
+                obtain ⟨_, F, _⟩ := wireUp_loc sa s2 i1.links i1.loc na ws tys h2
+                obtain ⟨op', e', q'⟩ := F.stat na op hn
+                refine ⟨r, s2, op', hr, ?_, e', q'⟩
+                have hlt := getHugr_lt st r.hid s hs
+                unfold BuildState.getHugr BuildState.setHugr
+                simp [hlt]
+
+theorem addCom_static (st st' : BuildState) (hb : BInv st) (bi : Nat) (op : Op) (args : List ComWire)
+    (md : Serial.Meta) (hd : Build.Handle) (h : addCom st bi op args md = .ok (st', hd)) :
+    ∃ r s' op', st.getB bi = .ok r ∧ st'.getHugr r.hid = .ok s' ∧ nodeOp s' hd.1 = .ok op' ∧
+      staticIn op' = staticIn op := by
+  unfold addCom at h
+  split at h
+  · cases h
+  · split at h
+    · unfold trackedAdd at h
+      split at h
+      · cases h
+      · split at h
+        · cases h
+        · rename_i ws _
+          split at h
+          · cases h
+          · rename_i st1 h1 ha
+            split at h
+            · cases h
+            · injection h with h
+              have e1 := (Prod.mk.inj h).1
+              have e2 := (Prod.mk.inj h).2
+              subst e1; subst e2
+              exact addOp_static st st1 hb bi op ws md h1 ha
+    · split at h
+      · cases h
+      · rename_i ws _
+        exact addOp_static st st' hb bi op ws md hd h
+
+theorem binv_loadConstNode (st st' : BuildState) (hb : BInv st) (bi c : Nat) (hd : Build.Handle)
+    (h : loadConstNode st bi c = .ok (st', hd)) : BInv st' := by
+  unfold loadConstNode at h
+  split at h
+  · cases h
+  · rename_i r hr
+    split at h
+    · cases h
+    · split at h
+      · cases h
+      · split at h
+        · rename_i v
+          split at h
+          · cases h
+          · rename_i st1 h1 ha
+            have b1 := binv_addCom st st1 hb bi _ [] [] h1 ha
+            obtain ⟨r', s1', op', e1, e2, e3, e4⟩ := addCom_static st st1 hb bi _ [] [] h1 ha
+            rw [hr] at e1; injection e1 with e1; subst e1
+            split at h
+            · cases h
+            · rename_i s1 hs1
+              rw [e2] at hs1; injection hs1 with hs1; subst hs1
+              unfold liftS at h
+              cases hl : Store.addLink s1' (c, 0) (h1.1, 0) with
+              | error e => simp [hl] at h
+              | ok s2 =>
+                simp only [hl] at h
+                injection h with h
+                rw [← (Prod.mk.inj h).1]
+                have hl' : Store.addLink s1' (c, 0) (h1.1, ((0 : Nat) : Int)) = .ok s2 := by simpa using hl
+                exact binv_setHugr st1 r.hid s2 b1
+                  (linvS_addStaticLink s1' s2 (b1.stores r.hid s1' e2) (c, 0) h1.1 0 ⟨op', e3, by rw [e4]; rfl⟩ hl')
+        · cases h
+
+theorem binv_loadValue (st st' : BuildState) (hb : BInv st) (bi : Nat) (v : Value) (cp : Option Nat)
+    (hd : Build.Handle) (h : loadValue st bi v cp = .ok (st', hd)) : BInv st' := by
+  unfold loadValue at h
+  split at h
+  · cases h
+  · split at h
+    · cases h
+    · rename_i st1 c hc
+      exact binv_loadConstNode st1 st' (binv_addConst st st1 hb bi v _ c hc) bi c.1 hd h
+
+theorem binv_loadFunction (st st' : BuildState) (hb : BInv st) (bi func : Nat) (inst : Option Sig)
+    (targs : Option (List TypeArg)) (hd : Build.Handle) (h : Build.loadFunction st bi func inst targs = .ok (st', hd)) :
+    BInv st' := by
+  unfold Build.loadFunction at h
+  split at h
+  · cases h
+  · rename_i r hr
+    split at h
+    · cases h
+    · rename_i s hs
+      split at h
+      · cases h
+      · split at h
+        · cases h
+        · rename_i lop hlop
+          have i0 := hb.stores r.hid s hs
+          unfold liftS at h
+          cases ha : Store.addNode s lop (some r.parent.1) none [] with
+          | error e => simp [ha] at h
+          | ok ra =>
+            obtain ⟨s1, n⟩ := ra
+            simp only [ha] at h
+            have i1 := linvS_addNode s s1 i0 _ _ _ _ n ha
+            have hn := addNode_nodeOp s s1 i0.free _ _ _ _ n ha
+            cases hl : Store.addLink s1 (func, 0) (n, 0) with
+            | error e => simp [hl] at h
+            | ok s2 =>
+              simp only [hl] at h
+              injection h with h
+              rw [← (Prod.mk.inj h).1]
+              have hl' : Store.addLink s1 (func, 0) (n, ((0 : Nat) : Int)) = .ok s2 := by simpa using hl
+              exact binv_setHugr st r.hid s2 hb
+                (linvS_addStaticLink s1 s2 i1 (func, 0) n 0 ⟨lop, hn, mkLoadFunc_static _ _ _ lop hlop⟩ hl')
+
 /-! ### commands and programs -/
 
 /-- the sub-language: every builder family whose wiring is `DfBase._wire_up_port` — dataflow graphs, functions and
     modules (definitions, declarations, constants, aliases), conditionals and if / else, tail loops, tracked dataflow
-    graphs, nested to any depth.  NOT in it: control-flow graphs and basic blocks (their `_wire_up_port` admits
-    dominator edges), `call` / `load` / `load_function` (static edges, whose locality the builders do not check)
-    and the `insert_*` family (`insert_hugr` copies the links of another HUGR). -/
+    graphs, `call` / `load` / `load_function`, nested to any depth.  NOT in it: control-flow graphs and basic blocks
+    (their `_wire_up_port` admits dominator edges) and the `insert_*` family (`insert_hugr` copies the links of
+    another HUGR).  The static edges `call` / `load` / `load_function` add (into the function port of a `Call`, port 0
+    of a `LoadConstant` / `LoadFunction`) are exempt from the locality statement: the builders do not check them. -/
 def InL : Cmd → Prop
   | .newDfg .. | .newFunction .. | .newTailLoop .. | .newTracked .. => True
   | .addOp .. | .add .. | .extend .. => True
@@ -766,6 +1006,7 @@ def InL : Cmd → Prop
   | .addConditional .. | .addCase .. | .addIf .. | .addElse .. | .exitConditional .. => True
   | .defineFunction .. | .defineMain .. | .declareFunction .. => True
   | .addConst .. | .addAliasDefn .. | .addAliasDecl .. => True
+  | .call .. | .load .. | .loadFunction .. => True
   | _ => False
 theorem retB_ok {b : String} {x : Except BuildErr (BuildState × Nat)} {st' : BuildState} {res : Result}
     (h : retB b x = .ok (st', res)) : ∃ st1 bi, x = .ok (st1, bi) ∧ st' = st1.bindB b bi := by
@@ -1114,6 +1355,42 @@ theorem step_binv (enc : String) (st st' : BuildState) (c : Cmd) (res : Result) 
     · obtain ⟨st1, hd, e1, e2⟩ := retN_ok h
       subst e2
       exact binv_bindN _ _ _ (binv_addPlainNode st st1 hb _ _ _ hd e1)
+
+  case call b n f args inst targs =>
+    simp only [step] at h
+    split at h
+    · cases h
+    · split at h
+      · cases h
+      · split at h
+        · cases h
+        · obtain ⟨st1, hd, e1, e2⟩ := retN_ok h
+          subst e2
+          exact binv_bindN _ _ _ (binv_call st st1 hb _ _ _ _ _ hd e1)
+  case load b n src =>
+    simp only [step] at h
+    split at h
+    · cases h
+    · split at h
+      · split at h
+        · cases h
+        · obtain ⟨st1, hd, e1, e2⟩ := retN_ok h
+          subst e2
+          exact binv_bindN _ _ _ (binv_loadValue st st1 hb _ _ _ hd e1)
+      · split at h
+        · cases h
+        · obtain ⟨st1, hd, e1, e2⟩ := retN_ok h
+          subst e2
+          exact binv_bindN _ _ _ (binv_loadConstNode st st1 hb _ _ hd e1)
+  case loadFunction b n f inst targs =>
+    simp only [step] at h
+    split at h
+    · cases h
+    · split at h
+      · cases h
+      · obtain ⟨st1, hd, e1, e2⟩ := retN_ok h
+        subst e2
+        exact binv_bindN _ _ _ (binv_loadFunction st st1 hb _ _ _ _ hd e1)
 
 theorem run_binv (enc : String) : ∀ (cmds : List Cmd) (st st' : BuildState),
     (∀ c ∈ cmds, InL c) → BInv st → run enc st cmds = .ok st' → BInv st' := by
